@@ -887,9 +887,10 @@ def run(ctx, res):
     shared_half(res, corpus)
     nested_half(res)
     dotdata_half(res)
+    changed_before_update_half(res)
 
     res.failures.sort(key=lambda f: (case_size(f["case"]) if "steps" in f["case"]
-                                     else (1, nodes(f["case"]["value"]))))
+                                     else (1, nodes(f["case"]["value"])) if "value" in f["case"] else (1, 1)))
     del res.failures[2000:]
 
 
@@ -1114,6 +1115,59 @@ def shared_half(res, corpus):
 
 
 # ---------------------------------------------------------------------------- replay
+# ------------------------------------------------------------------------------------------------------------
+# the datum is a mutable object that changes between add_data() and the update() that turns it into an event (a
+# reused buffer; a complex event whose data the action enriches while it waits in the receiver): what leaves the
+# receiver is what the validator accepts THEN
+def changed_before_update_case(wrapping, poison):
+    from bobocep.cep.engine.receiver.receiver import BoboReceiver
+    from bobocep.cep.engine.receiver.pubsub import BoboReceiverSubscriber
+    from bobocep.cep.gen.event_id import BoboGenEventIDUnique
+    from bobocep.cep.gen.timestamp import BoboGenTimestampEpoch
+    validator = make_validator(("jsonable",))
+
+    class Rec(BoboReceiverSubscriber):
+        def __init__(self):
+            self.events = []
+
+        def on_receiver_update(self, event):
+            self.events.append(event)
+    r = BoboReceiver(validator=validator, gen_event_id=BoboGenEventIDUnique("t"), gen_timestamp=BoboGenTimestampEpoch(),
+                     gen_event=None)
+    rec = Rec()
+    r.subscribe(rec)
+    buf = {"sensor": "s1", "value": 1}
+    datum = buf if wrapping is None else wrap(wrapping, buf, "e1", 5)
+    r.add_data(datum)
+    buf["value"] = {"bytes": b"\x15\x05", "set": {1, 2}, "tuple-key": {(1, 2): 3}}[poison]
+    try:
+        r.update()
+        r.update()
+    except Exception:       # noqa (a refusal may be an exception: that is not this oracle's concern)
+        pass
+    for ev in rec.events:
+        try:
+            ok = bool(validator.is_valid(ev))
+        except Exception:   # noqa
+            ok = False
+        if not ok:
+            return ("an event left the receiver carrying data the validator rejects: the datum (%s) was %r when add_data() "
+                    "took it and %r when update() made the event" % ("bare" if wrapping is None else "inside a %s event" % wrapping,
+                                                                      {"sensor": "s1", "value": 1}, buf))
+    return None
+
+
+def changed_before_update_half(res):
+    for wrapping in (None, "simple", "complex", "action"):
+        for poison in ("bytes", "set", "tuple-key"):
+            bad = changed_before_update_case(wrapping, poison)
+            res.note_case(("changed-before-update", wrapping, poison), True)
+            if bad:
+                res.failures.append(dict(signature="rejected-data-became-event", what=bad, detail=None,
+                                         case=dict(changed_before_update=[wrapping, poison])))
+                return
+
+
 def show(o):
     evs = o["events"]
     return "verdict=%s published=%d%s%s" % (
@@ -1125,6 +1179,11 @@ def show(o):
 
 
 def replay(obj):
+    if (obj.get("case") or {}).get("changed_before_update"):
+        w, pz = obj["case"]["changed_before_update"]
+        bad = changed_before_update_case(w, pz)
+        print(bad or "the changed datum was judged when the event was made: nothing the validator rejects left the receiver")
+        return 1 if bad else 0
     case = obj.get("case") or {}
     if obj.get("kind") == "unchecked":
         ms = obj.get("mismatches") or []
